@@ -366,6 +366,9 @@ class Intrinsics:
         return simp(z3.And(rs)) if rs else True
 
     def b_any(self, P, it):
+        if type(it).__name__ == 'SymSetImage':   # absnodes
+            from . import absnodes
+            return absnodes.any_image(P, it)
         rs = [P.truthy(x) for x in P.iterate(it)]
         if any(r is True for r in rs):
             return True
@@ -449,6 +452,9 @@ class Intrinsics:
                 return self.x_fractions_Fraction(P, n, d)
             if is_fraclike(num):
                 return num
+            if isinstance(num, SymFloat):   # absnodes (C07): exact value of a binary64
+                from . import absnodes
+                return absnodes.fraction_of_float(P, num)
             if isinstance(num, (str, float)):
                 try:
                     return Fraction(num)
